@@ -130,6 +130,7 @@ def strategy(tier):
         if len({n for c in comps for n in decl[c]["states"] + decl[c]["consts"] + decl[c]["inter"]}) < sum(len(decl[c]["states"] + decl[c]["consts"] + decl[c]["inter"]) for c in comps):
             features.add("name-clash")
         inter_done = []
+        deriv_done = []  # states whose dot() equation is already written: dot(x) may be referenced later on
         for c in comps:
             body.append(f"[{c}]")
             for n in decl[c]["consts"]:
@@ -143,6 +144,9 @@ def strategy(tier):
                     kids = [k for k in kids if k != n and k not in decl[c]["states"] + decl[c]["consts"] + decl[c]["inter"]]
                     children = kids
                 e = gen_expr(draw, refs + children, draw(st.integers(1, 3)))
+                if deriv_done and draw(st.integers(0, 4)) == 0:
+                    e = f"({e}) - 0.25 * dot({draw(st.sampled_from(deriv_done))})"
+                    features.add("derivative-reference")
                 body.append(f"{n} = {e}")
                 for k in children:
                     features.add("nested")
@@ -160,7 +164,11 @@ def strategy(tier):
                 e = gen_expr(draw, refs + children, draw(st.integers(1, 3)))
                 if children:
                     e = f"{children[0]} * ({e}) - {c}.{n}" + (f" * {children[1]}" if len(children) > 1 else "")
+                if deriv_done and draw(st.integers(0, 3)) == 0:
+                    e = f"({e}) + 0.5 * dot({draw(st.sampled_from(deriv_done))})"
+                    features.add("derivative-reference")
                 body.append(f"dot({n}) = {e}")
+                deriv_done.append(f"{c}.{n}")
                 for k in children:
                     features.add("nested-under-state")
                     body.append(f"    {k} = {gen_expr(draw, refs, 1)}")
